@@ -10,7 +10,7 @@
    - mloop   : matchImportWithExport (the tracker loop, the cycle detector,
      the recursive tracing of potentially ambiguous refs with the detector
      saved and restored, and the final all-results-equal test, which compares
-     whole matchImportResult structs INCLUDING nameLoc);
+     matchImportResult structs except for nameLoc);
    - match_imports_for_file : matchImportsWithExportsForFile (step 4).
    A source location of an export alias inside its file is represented by
    alias+1 (distinct aliases of a file have distinct locations; 0 = no loc).
@@ -151,9 +151,11 @@ Record mres := mkRes {
 }.
 Definition res0 : mres := mkRes MIgnore (-1) None 0 0 0.
 Definition pair_eqb (a b : nat * nat) : bool := Nat.eqb (fst a) (fst b) && Nat.eqb (snd a) (snd b).
+(* the comparison of the final all-results-equal test: since fix a7bd0a8 the name location
+   (only used for the notes of the error message) is not part of it *)
 Definition mres_eqb (a b : mres) : bool :=
   mkind_eqb (mr_kind a) (mr_kind b) && (mr_alias a =? mr_alias b) && option_eqb pair_eqb (mr_ns a) (mr_ns b)
-  && Nat.eqb (mr_src a) (mr_src b) && Nat.eqb (mr_ref a) (mr_ref b) && (mr_loc a =? mr_loc b).
+  && Nat.eqb (mr_src a) (mr_src b) && Nat.eqb (mr_ref a) (mr_ref b).
 
 (* error events: (file, code, alias); 1 cycle, 2 ambiguous, 3 no matching export *)
 Definition event := (nat * Z * Z)%type.
